@@ -197,7 +197,11 @@ class DefaultFormulaParser(FormulaParser):
             ]
 
         else:
-            tokens = list(tokens)
+            # Split any operator token containing "~" (e.g. "~+") so that the
+            # start of the right hand side can be located.
+            tokens = list(
+                insert_tokens_after(tokens, "~", [], kind=Token.Kind.OPERATOR)
+            )
             rhs_index = find_rhs_index(tokens) + 1
 
         context["__formulaic_variables_used_lhs__"] = [
